@@ -50,7 +50,7 @@ Fixpoint read_cues (cs : list rcue) (regions : list region) (paras : list para) 
     match rc_lines c with
     | [] => read_cues cs' regions' paras            (* no payload: nothing is shown, nothing is attached *)
     | _ =>
-      match parse_cue_text b true (cue_text c) with
+      match parse_cue_text b (cue_text c) with
       | inr e => Raised e
       | inl children => read_cues cs' regions' (paras ++ [mkPara b (Qmake (ts_ms (rc_end c)) 1000) ri children])
       end
@@ -224,7 +224,7 @@ Lemma run_cue c t rest s : rcue_ok c -> terminator t -> rs_state s = LLooking ->
   match rc_lines c with
   | [] => run_lines rest (mkR LLooking regions (rs_paras s) (Some (p [])) false (Some []))
   | _ =>
-    match parse_cue_text b true (cue_text c) with
+    match parse_cue_text b (cue_text c) with
     | inr e => Raised e
     | inl children =>
       run_lines rest (mkR LLooking regions (rs_paras s ++ [p children]) (Some (p [])) true
@@ -255,7 +255,7 @@ Proof.
     rewrite run_text_more by exact Hls.
     cbn [run_lines rs_state]. rewrite TB. cbn [rs_text rs_cur rs_attached rs_paras rs_regions pa_begin pa_end pa_region].
     unfold cue_text. rewrite El. cbn [map concat].
-    destruct (parse_cue_text _ true _) as [ch|e]; [|reflexivity].
+    destruct (parse_cue_text _ _) as [ch|e]; [|reflexivity].
     rewrite replace_last_app. reflexivity.
 Qed.
 
@@ -274,12 +274,12 @@ Proof.
   - rewrite run_cue; [|assumption|left; reflexivity|exact L].
     destruct (get_or_make_region _ _) as [rg ri]. cbv zeta.
     destruct (rc_lines c); [reflexivity|].
-    destruct (parse_cue_text _ true _); reflexivity.
+    destruct (parse_cue_text _ _); reflexivity.
   - rewrite run_cue; [|assumption|right; reflexivity|exact L].
     destruct (get_or_make_region _ _) as [rg ri]. cbv zeta.
     destruct (rc_lines c).
     + rewrite IH; [reflexivity|discriminate|assumption|reflexivity].
-    + destruct (parse_cue_text _ true _) as [ch|e]; [|reflexivity].
+    + destruct (parse_cue_text _ _) as [ch|e]; [|reflexivity].
       rewrite IH; [reflexivity|discriminate|assumption|reflexivity].
 Qed.
 
@@ -434,12 +434,12 @@ Proof.
     + rewrite run_cue; [|assumption|left; reflexivity|exact L].
       destruct (get_or_make_region _ _) as [rg ri]. cbv zeta.
       destruct (rc_lines c); [reflexivity|].
-      destruct (parse_cue_text _ true _); reflexivity.
+      destruct (parse_cue_text _ _); reflexivity.
     + rewrite run_cue; [|assumption|right; reflexivity|exact L].
       destruct (get_or_make_region _ _) as [rg ri]. cbv zeta.
       destruct (rc_lines c).
       * rewrite IH; [reflexivity|discriminate|assumption|reflexivity].
-      * destruct (parse_cue_text _ true _) as [ch|e]; [|reflexivity].
+      * destruct (parse_cue_text _ _) as [ch|e]; [|reflexivity].
         rewrite IH; [reflexivity|discriminate|assumption|reflexivity].
   - (* a block to skip: nothing changes *)
     destruct Hb as [_ Hok]. destruct bs as [|b2 bs].
@@ -546,7 +546,7 @@ Proof.
   - inversion Hp as [|? ? Hc Hcs]; subst.
     destruct (get_or_make_region rs (rc_settings c)) as [rs1 i] eqn:G.
     destruct (rc_lines c) as [|l1 ls] eqn:El; [congruence|].
-    destruct (parse_cue_text _ true _) as [ch|e]; [|discriminate].
+    destruct (parse_cue_text _ _) as [ch|e]; [|discriminate].
     destruct (IH _ _ _ _ Hcs H) as (qs & -> & A). rewrite A.
     eexists (_ :: qs). rewrite <- app_assoc. split; reflexivity.
 Qed.
